@@ -9,11 +9,13 @@ def gen_field(rng, n, npol, noise_kind, dtype="complex", scale=1.0, dark=None):
     """JSON spec of an optical field: rows of [re, im] pairs.
     noise_kind: none | random | zerosum (samples of every row sum to exactly 0) | zero (all-zero noise array)
     dark: None | 0 | 1 — for npol=2 the signal of that polarisation is identically zero while the noise (if any) still
-    occupies both rows (an x-only / y-only field accompanied by two-polarisation noise)"""
+    occupies both rows (an x-only / y-only field accompanied by two-polarisation noise)
+    dtype: complex | float | int | mixed — `mixed` = REAL-dtype .signal with a COMPLEX-dtype .noise (the noise is attached after
+    construction, as a device does that adds complex noise to a real field: e.g. what EDFA returns for a real-valued input)"""
     def val():
         if dtype == "int":
             return [float(rng.randrange(-5, 6)), 0.0]
-        if dtype == "float":
+        if dtype in ("float", "mixed"):
             return [rng.gauss(0, 1) * scale, 0.0]
         return [rng.gauss(0, 1) * scale, rng.gauss(0, 1) * scale]
 
@@ -30,7 +32,7 @@ def gen_field(rng, n, npol, noise_kind, dtype="complex", scale=1.0, dark=None):
     def nval(sd):
         if dtype == "int":
             return [float(rng.randrange(-3, 4)), 0.0]
-        return [rng.gauss(0, sd) * scale, 0.0 if dtype != "complex" else rng.gauss(0, sd) * scale]
+        return [rng.gauss(0, sd) * scale, 0.0 if dtype not in ("complex", "mixed") else rng.gauss(0, sd) * scale]
 
     if noise_kind == "random":
         noise = [[nval(0.3) for _ in range(n)] for _ in range(npol)]
@@ -44,7 +46,7 @@ def gen_field(rng, n, npol, noise_kind, dtype="complex", scale=1.0, dark=None):
                 if dtype == "int":
                     a = [float(rng.randrange(1, 5)), 0.0]
                 else:
-                    a = [float(rng.randrange(1, 9)) / 8 * scale, 0.0 if dtype != "complex" else float(rng.randrange(-8, 9)) / 8 * scale]
+                    a = [float(rng.randrange(1, 9)) / 8 * scale, 0.0 if dtype not in ("complex", "mixed") else float(rng.randrange(-8, 9)) / 8 * scale]
                 r += [a, [-a[0], -a[1]]]
             if n % 2:
                 r.append([0.0, 0.0])
@@ -65,6 +67,12 @@ def _arr(rows, dtype):
 def build_field(spec):
     """the optical_signal object of a spec (imports opticomlib lazily: VERIF_REPO decides which tree)"""
     from opticomlib.typing import optical_signal
+    if spec["dtype"] == "mixed":
+        x = optical_signal(_arr(spec["sig"], "float"))
+        if spec["noise"] is not None:
+            x.noise = _arr(spec["noise"], "complex")          # dtypes deliberately not harmonised by the constructor
+        assert x.n_pol == spec["npol"] and (x.noise is None or x.noise.shape == x.signal.shape)
+        return x
     sig = _arr(spec["sig"], spec["dtype"])
     noise = None if spec["noise"] is None else _arr(spec["noise"], spec["dtype"])
     x = optical_signal(sig, noise)
